@@ -7,6 +7,7 @@ CONSTANTS
   MaxPage = 3
   MaxEnv = 1
   MaxHist = 40
+  CanFail = TRUE
   GeOp = ">="
 INVARIANTS Emit
 CHECK_DEADLOCK FALSE
